@@ -35,6 +35,12 @@ def main():
         code = mod.run(prop, tier, replay)
     except lib.ToolError as e:
         lib.tool_error(str(e))
+    except SystemExit:
+        raise
+    except BaseException as e:      # a defect of the machinery itself is a tool error (exit 2), never an alarm (exit 1)
+        import traceback
+        traceback.print_exc()
+        lib.tool_error(f"internal error in the {PIPELINES[prop]} pipeline: {type(e).__name__}: {e}")
     sys.exit(code)
 
 
